@@ -1,4 +1,5 @@
 import Orca.Model.Parse
+import Orca.Gen.DefTypes
 import Driver.Util
 namespace Driver
 open Orca.Parse
@@ -27,10 +28,14 @@ def runParse (toks : List String) : List String :=
     match (parseList ((kv rest "ev").getD "-")).mapM parseEv with
     | none => [s!"parse {case} bad-line"]
     | some evs =>
+      -- components nested inside each other (`nest=<levels>`, only on the cases built for it): error iff deeper than the bound
+      let nest : List String := match (kv rest "nest").bind (·.toNat?) with
+        | some n => [s!"parse {case} nesting={if n ≤ Orca.Gen.maxNestingDepth then "ok" else "err"}"]
+        | none => []
       match parseM evs with
-      | .ok => [s!"parse {case} module=OK"]
-      | .err _ => [s!"parse {case} module=ERR"]
-      | .panic s => [s!"parse {case} module=PANIC({s})"]
+      | .ok => [s!"parse {case} module=OK"] ++ nest
+      | .err _ => [s!"parse {case} module=ERR"] ++ nest
+      | .panic s => [s!"parse {case} module=PANIC({s})"] ++ nest
   | [] => []
 
 end Driver
